@@ -136,6 +136,17 @@ CLAIMED["C08"] = {
     "design_ref": "DESIGN.md §5 C08",
 }
 
+CLAIMED["C16"] = {
+    "text": "The expression layer of the fluent builder only: it is proved (Verus, structural induction, all trees whose handles belong to the builder) that to_exp translates an index-based builder tree into a language tree "
+            "with exactly the same meaning under the language semantics (every variant incl. min/max/and/or lists), and that eval_expr - the evaluator behind BuilderSolution::eval - computes that meaning "
+            "(number, variable, abs, not, xor, implies, iff, all binary and unary operators; the Min/Max/And/Or arms use iterator fold/all/any and are assumed arms checked by a BOUNDED search on the real code). "
+            "NOT decided: operator overloads and macros (macro-generated impls, not extractable), into_model (usage marking, default objective), handle -> name -> value resolution in BuilderSolution / LpSolution, "
+            "the pipe runner and RoocSolver entry points, equality of the compiled linear models across front doors (corollary of C01/C02 for equal trees).",
+    "note": "Trusted: prelude/f64_layer.rs (floats as exact extended reals), prelude/std_stubs.rs. Rule R33 renames the extracted helper `truthy` (clash with the ghost name).",
+    "technique": "Verus contracts relating sem(to_exp(e)) and eval_expr(e) to a ghost meaning esem(e) of builder trees, on functions extracted from builder/expr.rs; bounded executable-postcondition search for the assumed arms",
+    "design_ref": "DESIGN.md §5 C16",
+}
+
 NOT_APPLICABLE = {
     "C03": "quantifies over source texts through the pest-generated parser and an external MILP search; every in-repo step that can carry a contract is covered by C01/C02/C04/C05; no further function exists to attach an obligation to",
     "C06": "relates two parses; the expansion engine works on parser IL with dyn Fn callbacks, scope frames and evaluated iterables that Verus does not accept and Kani cannot execute; its specification would be a formal semantics of the whole language",
@@ -143,5 +154,5 @@ NOT_APPLICABLE = {
     "C17": "the export is text read by an independent reader; a contract would need a formal LP-format reader and a string theory for format!/push_str output; Kani cannot execute float formatting",
     "C20": "sensitivities are computed inside clarabel/good_lp; rooc only forwards them by name, so no contract on repository code decides the sign convention",
     "C11": PENDING, "C12": PENDING,
-     "C16": PENDING, 
+
 }
